@@ -3,7 +3,7 @@
    buffered candidate).  `G a b g`: the next event (a yield or the end of the stream) arrives within `a` steps and,
    after every yield, the following one within `b` steps, for EVERY oracle of random draws. *)
 From Coq Require Import QArith ZArith Bool List.
-From PP Require Import Prelude.Base Prelude.Val Prelude.Pred Prelude.Sem Lemmas.GenDSL Lemmas.GenModel Lemmas.GenProd.
+From PP Require Import Prelude.Base Prelude.Val Prelude.Pred Prelude.Sem Lemmas.GenDSL Lemmas.GenYield Lemmas.GenModel Lemmas.GenProd Lemmas.GenSat.
 Import ListNotations.
 Close Scope Q_scope.
 
@@ -43,6 +43,27 @@ Theorem C11_unsatisfiable_requests_give_an_empty_stream :
   run 50 (gen_true fe W ck (PAny PFalse)) o 0 = ([], Stopped) /\ run 50 (gen_false fe W ck (PSetOf PTrue)) o 0 = ([], Stopped).
 Proof. exact empty_streams. Qed.
 Print Assumptions C11_unsatisfiable_requests_give_an_empty_stream.
+
+(* a satisfiable request yields at least one value: for the kinds with a bound, under the syntactic conditions
+   sat_true / sat_false (a non-empty member set, a supported class, an orderable constant type, a satisfiable element
+   predicate under any_p / a falsifiable one under all_p and set-of), the FIRST event of the stream that is not internal
+   work is a yield, and it arrives within Bt p (Bf p) steps - for every oracle of random draws *)
+Theorem C11_satisfiable_generate_true_request_yields_a_first_value :
+  forall fe W ck p, prod_true ck p = true -> sat_true ck p = true ->
+  forall o c, exists v g' c', next_event (Bt p) (gen_true fe W ck p) o c = Some (EYield v, g', c').
+Proof. exact satisfiable_true_request_yields. Qed.
+Print Assumptions C11_satisfiable_generate_true_request_yields_a_first_value.
+Theorem C11_satisfiable_generate_false_request_yields_a_first_value :
+  forall fe W ck p, prod_false ck p = true -> sat_false ck p = true ->
+  forall o c, exists v g' c', next_event (Bf p) (gen_false fe W ck p) o c = Some (EYield v, g', c').
+Proof. exact satisfiable_false_request_yields. Qed.
+Print Assumptions C11_satisfiable_generate_false_request_yields_a_first_value.
+Theorem C11_satisfiability_conditions_nonvacuous :
+  sat_true KInt (PAny (PGe 3)) = true /\ prod_true KInt (PAny (PGe 3)) = true /\
+  sat_false KFloat (PAll (PGe 3)) = true /\ prod_false KFloat (PAll (PGe 3)) = true /\
+  sat_true KInt (PIsInstance [9]) = true /\ sat_true KInt (PIn []) = false /\ sat_false KInt PTrue = false.
+Proof. exact sat_examples. Qed.
+Print Assumptions C11_satisfiability_conditions_nonvacuous.
 
 (* PARTIAL (named): the kinds that go through a filter (not_in_p, is_not_none_p, str/UUID bounds, &, set-of;
    generate_false of eq/in/none/falsy/type tests/|) are rejection sampling: no bound holds for every oracle (known
